@@ -58,8 +58,10 @@ CASES = {"quick": 2500, "thorough": 60000, "search": 12000}
 TABLES = c17_tables.tables_text
 RULE = ("random histories (3-18 ops) of bind (override x replace, None/empty/underscore/numbered prefixes, nested and "
         "overlapping namespaces), direct store.bind, qname/curie/compute_qname(_strict)/n3/expand_curie, reset, Turtle and "
-        "RDF/XML parses that bind prefixes, Turtle/N3 serialisation that generates them (output re-parsed, @prefix table "
-        "checked, `_x` vs `p_x` collisions generated); Memory, SimpleMemory and Dataset; one "
+        "RDF/XML parses that bind prefixes, Turtle/N3/longturtle(canon)/TriG serialisation that generates them and RDF/XML "
+        "serialisation (strict qnames) (output re-parsed, @prefix / xmlns table checked, `_x` vs `p_x` collisions generated), TriG "
+        "of a dataset whose graphs go through two managers, refused bind_namespaces modes, stateless split_uri / is_ncname probes "
+        "over all of Unicode and block-wise comparison of the whole category table; Memory, SimpleMemory and Dataset; one "
         "or two managers on the store, and graphs that borrow the manager of a graph on another store (constructor argument "
         "or setter); bind_namespaces none/core/rdflib.  non-trivial = some bind met an already bound "
         "prefix or namespace and a later qname-family call returned a prefixed name; distinct = distinct histories")
